@@ -84,16 +84,19 @@ type Gateway struct {
 	OnBus        func(cemi []byte) // called for every telegram accepted from the client
 
 	// behaviour knobs
-	Silent        bool          // answers nothing at all
-	NoAck         bool          // does not acknowledge tunnelling requests (but forwards them)
-	StateStatus   uint8         // status of connection-state responses on the live channel
-	StateSilent   bool          // does not answer connection-state requests
-	ConnScript    []connAction  // consumed per received connect request; exhausted = ok
-	OutResend     time.Duration // repeat interval of own requests
-	OutAttempts   int           // transmissions before giving up
-	DiscOnGiveUp  bool          // (always true: kept for the record of what "rule-following" means)
-	AckStatus     uint8         // status put into acknowledgements (0 = OK)
-	AckStatusOnce bool
+	Silent         bool          // answers nothing at all
+	NoAck          bool          // does not acknowledge tunnelling requests (but forwards them)
+	StateStatus    uint8         // status of connection-state responses on the live channel
+	StateSilent    bool          // does not answer connection-state requests
+	ConnScript     []connAction  // consumed per received connect request; exhausted = ok
+	OutResend      time.Duration // repeat interval of own requests
+	OutAttempts    int           // transmissions before giving up
+	DiscOnGiveUp   bool          // (always true: kept for the record of what "rule-following" means)
+	AckStatus      uint8         // status put into acknowledgements (0 = OK)
+	AckStatusOnce  bool
+	DupAckThenDisc time.Duration // >0, one-shot: the next acknowledgement is sent twice and the connection ended this long afterwards
+	StaleAfter     int           // >0: counts acknowledged requests down; at 0 the same happens at once, with StaleExtra further acknowledgements (numbers 0..) nobody waits for
+	StaleExtra     int
 
 	ConnReqs    []Stamp
 	StateReqs   []Stamp
@@ -354,6 +357,32 @@ func (g *Gateway) handle(raw []byte, from *net.UDPAddr, ref uint64) {
 			}
 		}
 		g.send(mkTunnelRes(f.Channel, f.Seq, st))
+		fire, d := g.DupAckThenDisc > 0, g.DupAckThenDisc
+		if g.StaleAfter > 0 {
+			if g.StaleAfter--; g.StaleAfter == 0 {
+				fire = true
+			}
+		}
+		if fire {
+			// copies of acknowledgements are still on offer inside the client when the
+			// connection is replaced
+			g.DupAckThenDisc = 0
+			g.e.Fault("ack-duplicate-then-disconnect")
+			g.send(mkTunnelRes(f.Channel, f.Seq, st))
+			for q := 0; q < g.StaleExtra; q++ {
+				g.send(mkTunnelRes(f.Channel, uint8(q), 0))
+			}
+			if d == 0 {
+				g.Disconnect()
+			} else {
+				g.e.S.Spawn("gw-late-disconnect", func() {
+					g.e.S.SleepFor(d)
+					if g.cur == ep {
+						g.Disconnect()
+					}
+				})
+			}
+		}
 	case svcTunnelRes:
 		ep := g.cur
 		if ep == nil || f.Channel != ep.Channel {
